@@ -57,7 +57,7 @@ type vcliConn struct {
 	c2sTotal  int64
 	discarded int64
 	s2cTotal  int64
-	readMax   int // >0: a client Read returns at most this many bytes (fragmentation)
+	readMax   int  // >0: a client Read returns at most this many bytes (fragmentation)
 	hold      bool // client Writes block (a socket whose send buffer is full) until released
 	heldOnce  bool // a Write has blocked since hold was set
 	cc        atomic.Pointer[ClientConn]
